@@ -114,7 +114,7 @@ def gen_case(rng, i):
             if kind == "grid" and len(children) >= 2:
                 opts += ["conflict"]
         if kind == "grid":
-            opts += ["zero-count", "neg-count"]
+            opts += ["zero-count", "neg-count", "huge-count"]
         if opts:
             what = rng.choice(opts)
             ch = rng.choice(children)
@@ -123,7 +123,10 @@ def gen_case(rng, i):
             elif what == "neg-col":
                 ch["column"] = -1
             elif what == "big":
-                ch[rng.choice(("row", "column"))] = 65536 + rng.randint(0, 5)
+                # boundary-biased: just past the limit, around 2^31, and values that come back into range if truncated to 32 bits
+                ch[rng.choice(("row", "column"))] = rng.choice((
+                    65536 + rng.randint(0, 5), 2 ** 31 - 1, 2 ** 31, 2 ** 32, 2 ** 32 + rng.randint(0, 3), 2 ** 33 + 1,
+                    -(2 ** 32) + rng.randint(0, 3), 2 ** 40 + 1, 2 ** 53, 2 ** 62))
                 if flow == "ttb" and "row" in ch and ch["row"] > 65535:
                     pass
             elif what == "col-eq-count":
@@ -137,6 +140,9 @@ def gen_case(rng, i):
                     case["columns"] = 0
                 else:
                     case["rows"] = 0
+            elif what == "huge-count":
+                # far beyond any cell index; in range again if truncated to 32 bits
+                case["columns" if flow == "ltr" else "rows"] = rng.choice((2 ** 32 + 2, 2 ** 32 + 3, 2 ** 33 + 2, 2 ** 40 + 4))
             elif what == "neg-count":
                 if flow == "ltr":
                     case["columns"] = -2
